@@ -92,11 +92,11 @@ def plan_for(prop, tier, seed):
         P.add(bw("chain"), *fams)
         P.add(bw("blk_1_2"), *fams)
         P.add(bw("fan"), *fams)
-        for e in _seeded_bw(seed, 3 if q else 24):
+        for e in _seeded_bw(seed, 3 if q else 12):
             P.add(e, *fams)
-        for e in _edge_bw(seed, 24 if q else 96):
+        for e in _edge_bw(seed, 24 if q else 64):
             P.add(e, "T1")
-        for e in _tangle_bw(seed, 8 if q else 48) + _infix_bw(seed, 6 if q else 32):
+        for e in _tangle_bw(seed, 8 if q else 24) + _infix_bw(seed, 6 if q else 16):
             P.add(e, "T2", "T34")
         cwset = ["ab", "ba", "abab", "bbab", "aabb", "babb", "aaab", "bbba", "abba", "baab", "aaaa", "bbbb"]
         P.add(Entry("cw_blocks_n1", "charwise", "standard", cwset, nfb=1), "T1", "T2")   # char-wise eviction
@@ -115,7 +115,7 @@ def plan_for(prop, tier, seed):
         # char-wise standard automata
         for n in ("a3", "a4", "a5", "w123", "greek"):
             P.add(cw(n), *fams)
-        for e in _seeded_cw(seed, 2 if q else 16):
+        for e in _seeded_cw(seed, 2 if q else 8):
             P.add(e, *fams)
         if not q:
             for n in ("a1", "a2", "thai", "cjk", "tokyo"):
@@ -139,18 +139,18 @@ def plan_for(prop, tier, seed):
         sets = ["hard_lm", "hard_lm2", "chain", "bin"]
         for n in sets:
             P.add(bw(n, kind), *fams)
-        for e in _seeded_bw(seed, 2 if q else 16, kind):
+        for e in _seeded_bw(seed, 2 if q else 8, kind):
             P.add(e, *fams)
         # dense prefix/suffix/infix relations: the per-state leftmost oracle on many small automata
-        for e in _tangle_bw(seed, 16 if q else 64, kind):
+        for e in _tangle_bw(seed, 16 if q else 40, kind):
             P.add(e, "T2", "T34")
-        for e in _tangle_bw(seed + 1, 4 if q else 16, kind, "charwise"):
+        for e in _tangle_bw(seed + 1, 4 if q else 10, kind, "charwise"):
             P.add(e, "T2", "T34")
-        for e in _infix_bw(seed, 12 if q else 48, kind):
+        for e in _infix_bw(seed, 12 if q else 32, kind):
             P.add(e, "T2", "T34")
         for n in (("w123", "a4", "thai") if q else ("w123", "a4", "a2", "a5", "thai", "tokyo", "cjk", "astral")):
             P.add(cw(n, kind), *fams)
-        for e in _seeded_cw(seed, 1 if q else 10, kind):
+        for e in _seeded_cw(seed, 1 if q else 6, kind):
             P.add(e, *fams)
         if kind == "first":
             # registration order is the input: all orders of 3-sets with shadowing
@@ -179,7 +179,7 @@ def plan_for(prop, tier, seed):
             if not q:
                 P.add(bw("hard_lm", kind, suffix="_e3"), "E:m=lm,L=3")
             # concrete prefix + 2 symbolic tail bytes, for every proper prefix shape of interest
-            pres = ["61"] if q else ["61", "6162", "616263", "6263", "78616263", "6162637861"]
+            pres = ["61"] if q else ["61", "6162", "6263"]
             for pre in pres:
                 P.add(bw("hard_lm", kind, suffix="_p" + pre), "E:m=lm,L=2,pre=" + pre)
             if not q:
